@@ -146,7 +146,11 @@ impl Desc {
                 )));
             }
 
-            if !label_names.insert(format!("${}", label_name)) {
+            // A variable label must not repeat a const label's name either
+            // (const label names are stored unprefixed).
+            if label_names.contains(label_name)
+                || !label_names.insert(format!("${}", label_name))
+            {
                 return Err(Error::Msg(format!(
                     "duplicate variable label name {}",
                     label_name
